@@ -145,7 +145,12 @@ impl<'a> ArxmlLexer<'a> {
             let mut standalone: Option<bool> = None;
             for attr_text in splitter {
                 let (attr_name, attr_val) = if let Some(pos) = attr_text.iter().position(|c| *c == b'=') {
-                    (&attr_text[0..pos], &attr_text[pos + 2..attr_text.len() - 1])
+                    if attr_text.len() >= pos + 3 {
+                        (&attr_text[0..pos], &attr_text[pos + 2..attr_text.len() - 1])
+                    } else {
+                        // there is no quoted value after the '='
+                        (&attr_text[0..pos], &attr_text[0..0])
+                    }
                 } else {
                     (attr_text, &attr_text[0..0])
                 };
